@@ -245,6 +245,13 @@ func c07Exec(d *vCtx, tr, aux *vTrace, base string, c *c07Case, runBase int) ([]
 	if rounds == 0 {
 		rounds = 2
 	}
+	// a third round on a share of the cases: the same sources once more (every top-level name now collides twice), the
+	// user stops and asks for deletion once the receiver has answered the first name: whatever the transfer had
+	// created goes, whatever was there before stays
+	stopRound := 0
+	if rounds == 2 && c.Special == "" && c.ID%3 == 0 {
+		rounds, stopRound = 3, 3
+	}
 	var out []*c07Run
 	for round := 1; round <= rounds; round++ {
 		run := runBase*10 + round
@@ -257,6 +264,10 @@ func c07Exec(d *vCtx, tr, aux *vTrace, base string, c *c07Case, runBase int) ([]
 			w.mu.Unlock()
 		}
 		ec := &e2eCase{ID: run, Seed: d.seed*1009 + int64(c.ID), Opts: o, Nodes: nodes, Bases: bases, WatchdogMs: 240000}
+		if round == stopRound {
+			ec.Plan.Stop = &e2eStop{G: 5, Phase: "after", Role: "C", Delete: true}
+			d.add("stopdel_rounds", 1)
+		}
 		res, detail, err := e2eExec(ec, sb.work, aux, false)
 		e2eProbeSink = nil
 		if err != nil {
@@ -281,6 +292,7 @@ func c07Exec(d *vCtx, tr, aux *vTrace, base string, c *c07Case, runBase int) ([]
 		r.Shown = res.Shown
 		// ---- events
 		destEmitReset(tr, &destRun{Run: run, Overwrite: o.Overwrite, Directory: o.Directory, Proto: o.Protocol, Role: c.Role,
+			StopDel: round == stopRound,
 			Extra: map[string]any{"prop": "c07", "round": round, "special": c.Special}})
 		srcEv := []map[string]any{}
 		for i, e := range ents {
